@@ -149,7 +149,8 @@ pub fn eval(c: &Case) -> CaseOut {
             payload: b"ping".to_vec(),
         }
         .encode();
-        let rx = request.len() + 16;
+        // (inbound QoS 1 requests arrive in a receive buffer they fill to the last byte)
+        let rx = if c.in_qos == 1 { request.len().max(16) } else { request.len() + 16 };
         let tx = c.topic_len.unwrap_or(0) + c.corr_len.unwrap_or(0) + 128;
         let user_ref: Vec<Prop> = (0..c.add_user_props).map(|i| up(&format!("u{}", i))).collect();
         let users: Vec<Property<'_>> = props_of(&user_ref);
